@@ -216,8 +216,8 @@ CHECKS["C04"] = {
 
 CHECKS["C02"] = {
     "corpus": True,
-    "runs": [R("./vm", {"fn": r"^ZZ_C02_"})],
-    "expect_asserts": [r"C02\.returns-execution-interrupted/loop/none", r"C02\.no-side-effect-after-cancellation/.*", r"C02\.no-statement-after-the-interrupted-one/.*/try-catch", r"C02\.entry/nothing-executed", r"C02\.no-host-call-starts-after-cancellation/.*", r"C02\.returns-execution-interrupted/chan-send/.*"],
+    "runs": [R("./vm", {"fn": r"^ZZ_C02_(cores|wrapped|poll_on_entry|library_functions|host_calls_after_cancellation|racing_senders)$"}, {"fn": r"^ZZ_C02_", "wall_timeout": 10000})],
+    "expect_asserts": [r"C02\.returns-execution-interrupted/loop/none", r"C02\.no-side-effect-after-cancellation/.*", r"C02\.no-statement-after-the-interrupted-one/.*/try-catch", r"C02\.entry/nothing-executed", r"C02\.no-host-call-starts-after-cancellation/.*", r"C02\.returns-execution-interrupted/racing-senders/.*", r"C02\.returns-execution-interrupted/chan-send/.*"],
     "bounds": {"cores": "20 spinning / blocking cores (three loop forms, for-in over slice/map/channel, channel send/receive/receive statement, recursion, calls through the direct path with 0/2/4 parameters, the reflect path with 5 parameters, variadic, spread, anonymous, from a container, deferred, callback from a host function)",
                "wrappers": "12 (try/catch[/finally], ?? left, if/switch/module/function bodies, catch and finally blocks, deferred call, nested try)", "cancellation instant": "poll 0..7 (every Done() call is a poll); for blocking cores the cancellation arrives while blocked",
                "instruction budget": "3,000,000 per run: exceeding it after the cancellation was delivered is the violation 'terminates'"},
